@@ -295,3 +295,5 @@ mod tests {
         });
     }
 }
+
+#[cfg(p2panda_p2panda_verif)] #[doc(hidden)] pub mod verif_c07;
